@@ -81,6 +81,55 @@ CHECKS["C17"] = (
     "DESIGN.md §2 C17",
 )
 
+CHECKS["C08"] = (
+    "runtime contracts (icontract postconditions installed from the harness on the real NormalFamily / Bernoulli / right-censored Weibull density methods) comparing every call's result entry by entry with float64 textbook densities; outer comparison of Family.nll / regularization / symbolic functions; whole-state comparison of every attachment / regularity node of real models; contracts left on during short fits and personalisations",
+    "Held on every density evaluation observed (>100k contract evaluations per quick run) over all broadcasting layouts, dtypes, extreme probabilities, Weibull shapes incl. peaked laws, events before / at / after the reference time, censoring flags, with and without sources. Exploration.",
+    "Trusts vf/refmodel/dens08.py (textbook formulas written from docs/models.md); entries of weight 0 and float32 probabilities within eps of 0/1 (torch clamps) are not judged.",
+    "DESIGN.md §2 C08",
+)
+CHECKS["C09"] = (
+    "reference-model monitor + structural postconditions on the real estimate() / compute_individual_trajectory(): float64 closed forms from docs/models.md with a conditioning-aware tolerance; range, monotonicity, value at the reference time; keys / order / index / layout of the result",
+    "Held on every request observed (3k+ models x requests per quick run; dict and MultiIndex, unsorted / repeated / scalar / empty / far-extrapolated ages; logistic, linear, shared-speed, joint longitudinal block). Exploration. One known finding (joint model + DataFrame layout).",
+    "Trusts vf/refmodel/traj09.py; the mixing matrix is read from the model (its construction is C10's subject).",
+    "DESIGN.md §2 C09",
+)
+CHECKS["C14"] = (
+    "reference canonicaliser (plain python) compared cell by cell with the real Data/Dataset; metamorphic row-permutation twins (bit-identical per ID); round trip through to_pandas; icontract postcondition on Dataset.__init__; caller's frame compared with a deep snapshot; one-malformation-at-a-time refusal monitor",
+    "Held on every table observed (4 layouts, 10 ID types, 7 missing patterns, 5 row orders, 37 malformation classes). Exploration.",
+    "Trusts vf/refmodel/canon14.py; classes of malformation the statement does not clearly promise to reject are reported, not judged.",
+    "DESIGN.md §2 C14",
+)
+CHECKS["C16"] = (
+    "runtime contracts (icontract round-trip postconditions set on the real IndividualParameters methods) + plain-dict reference model; chains of two conversions; rejection monitor for malformed additions",
+    "Held on every container observed (thousands per run: numeric-looking / quoted / NA-like IDs, scalar / length-1 / length-n shapes, NaN, +-0, 1e+-30). Exploration.",
+    "Trusts vf/refmodel/ipref.py; names containing '_' are judged only for the json / tensor forms (the table form cannot represent them by design).",
+    "DESIGN.md §2 C16",
+)
+CHECKS["C18"] = (
+    "postcondition monitor on the Result of real simulate() calls + termination monitor on a logical step budget (tap on numpy.random.normal inside the visit generator, no wall clock) + refusal monitor (LeaspyAlgoInputError with zero RNG draws) over 37 inadmissible design variants",
+    "Held on every design observed (thousands per run: logistic models dim 1-5, 0-2 sources, scalar/diagonal noise, random and table designs, all spacing regimes). Exploration.",
+    "Trusts the draw-count budget 100*follow-up/mean+1000 per subject as the bounded restatement of 'runs to completion'.",
+    "DESIGN.md §2 C18",
+)
+CHECKS["C19"] = (
+    "online trace checker: exact rational (Fraction) plateau schedule vs the temperature recorded after every update of the real algorithm object (driven grid + inside real fits/personalisations); reference rolling window fed by the recorded acceptance vectors vs the real samplers' std updates (synthetic and real histories)",
+    "Held on every temperature update (hundreds of thousands per run over n_iter 1-300 x annealing counts incl. 0 and < n_plateau-1 x T0 x n_plateau 1-20) and every std update observed on all four sampler kinds. Exploration.",
+    "Trusts vf/refmodel/sched19.py; band decisions in exact rationals; float32 products within 2 ulp.",
+    "DESIGN.md §2 C19",
+)
+CHECKS["C20"] = (
+    "reference estimators (10-line numpy for the constant model; statsmodels' own random effects + float64 closed form for LME) compared with the real personalize / estimate; recording wrapper on the MixedLM call of the real lme_fit to check the design actually fitted",
+    "Held on every history / cohort observed (unsorted rows via permuted Datasets, missing patterns incl. features entirely missing, one-visit subjects, with/without random slope). Exploration; cohorts where statsmodels warns or refuses are skipped and counted.",
+    "Trusts statsmodels as the reference library named in the statement and the float64 closed form.",
+    "DESIGN.md §2 C20",
+)
+CHECKS["C11"] = (
+    "differential execution in separate interpreters: sha256 digests (per-iteration trace for fits) of the same seeded call in a fresh interpreter vs after prior activity (RNG consumption, re-seeding, unrelated fit+personalisation) x logging configurations vs fresh interpreters with other hash seeds",
+    "Held on every pair observed over fits (Gibbs / FastGibbs / MH, +-annealing), the three personalisation families and simulate, a grid of print / save / plot / patient-plot periodicities with and without path. Exploration. One known finding (mixture model + patient plots).",
+    "Trusts digests over tensor bytes; changing torch's global default dtype by the user is outside the statement.",
+    "DESIGN.md §2 C11",
+)
+
 NOT_YET = {}
 
 QUICK_BASELINE = (
